@@ -576,8 +576,15 @@ class StmtMixin:
                 if c is not None:
                     out.append(c.key)
         elif isinstance(f, ast.Attribute):
+            recv = st.env.get(f.value.id) if isinstance(f.value, ast.Name) else None
+            if recv is not None and isinstance(recv.ty, T.ObjT):
+                k = self.method_key(recv.ty.cls, f.attr)
+                if k is not None:
+                    return [k]
+            if recv is not None and recv.ty not in (T.PY, T.FUN) and not isinstance(recv.ty, T.ObjT):
+                return []       # method of a modelled builtin value: handled by the mutator scan
             for key, c in self.contracts.items():
-                if key.endswith("." + f.attr) or key.endswith(":" + f.attr):
+                if key.endswith("." + f.attr) and not key.startswith(("refine:", "dispatch:")):
                     out.append(key)
         return out
 
